@@ -13,6 +13,7 @@ import (
 	"github.com/gopherjs/gopherjs/compiler/internal/analysis"
 	"github.com/gopherjs/gopherjs/compiler/internal/typeparams"
 	"github.com/gopherjs/gopherjs/compiler/sources"
+	"github.com/gopherjs/gopherjs/compiler/typesutil"
 )
 
 // VerifC16RemoveWhitespace is removeWhitespace; a run-time panic (index / slice bounds)
@@ -44,7 +45,11 @@ func VerifC16EncodeIdent(name string) string { return encodeIdent(name) }
 
 // VerifC16Scopes is a tree of real funcContexts: scope 0 is made by newRootCtx (which
 // seeds the reserved words), every other scope by nestedFunctionContext.
-type VerifC16Scopes struct{ ctxs []*funcContext }
+type VerifC16Scopes struct {
+	ctxs []*funcContext
+	vars map[int]*types.Var
+	pkg  *types.Package
+}
 
 // VerifC16NewScopes creates the root scope with the real newRootCtx.
 func VerifC16NewScopes(minify bool) *VerifC16Scopes {
@@ -87,4 +92,45 @@ func (s *VerifC16Scopes) Count(scope int, name string) int { return s.ctxs[scope
 // LocalVars is localVars of scope `scope`.
 func (s *VerifC16Scopes) LocalVars(scope int) []string {
 	return append([]string(nil), s.ctxs[scope].localVars...)
+}
+
+// ChildGeneric is Child for an instantiation of a generic function (`func f[T any]()` with T = int): the new
+// context has a non-trivial instance, as the contexts of the instantiations of one generic function have.
+func (s *VerifC16Scopes) ChildGeneric(parent int, funcName string) (id int, funcRef string, panicMsg string) {
+	defer func() {
+		if r := recover(); r != nil {
+			id, funcRef, panicMsg = -1, "", fmt.Sprint(r)
+		}
+	}()
+	tp := types.NewTypeParam(types.NewTypeName(0, nil, "T", nil), types.NewInterfaceType(nil, nil))
+	sig := types.NewSignatureType(nil, nil, []*types.TypeParam{tp}, nil, nil, false)
+	o := types.NewFunc(0, nil, funcName, sig)
+	inst := typeparams.Instance{Object: o, TArgs: typesutil.TypeList{types.Typ[types.Int]}}
+	c := s.ctxs[parent].nestedFunctionContext(&analysis.FuncInfo{}, inst)
+	s.ctxs = append(s.ctxs, c)
+	return len(s.ctxs) - 1, c.funcRef.Name, ""
+}
+
+// VarPtrName is funcContext.varPtrName on scope `scope` for the variable with identity `varID` (the same
+// *types.Var for the same id, as the variables of a generic function are shared by its instantiations).
+// pkgLevel variables are (unexported) members of a package scope.
+func (s *VerifC16Scopes) VarPtrName(scope int, varID int, name string, pkgLevel bool) (res string, panicMsg string) {
+	defer func() {
+		if r := recover(); r != nil {
+			res, panicMsg = "", fmt.Sprint(r)
+		}
+	}()
+	if s.vars == nil {
+		s.vars = map[int]*types.Var{}
+		s.pkg = types.NewPackage("verif/p", "p")
+	}
+	v, ok := s.vars[varID]
+	if !ok {
+		v = types.NewVar(0, s.pkg, name, types.Typ[types.Int])
+		if pkgLevel {
+			s.pkg.Scope().Insert(v)
+		}
+		s.vars[varID] = v
+	}
+	return s.ctxs[scope].varPtrName(v), ""
 }
